@@ -23,6 +23,7 @@ func TestVerifDisplay(t *testing.T) {
 		bs, frames := vStream(r, res.n(40, 200))
 		delay := []time.Duration{time.Millisecond, 5 * time.Millisecond, 20 * time.Millisecond}[r.Intn(3)]
 		var cfg jsonconfig.Config
+		vMark(fmt.Sprintf("display delay=%v stream=%s", delay, vhx(bs)))
 		// reference: instant writer, read after quiescence
 		refW := &slowWriter{}
 		HandleMessages(start, &chunked{data: append([]byte{}, bs...), chunks: []int{4096}}, refW, &cfg)
